@@ -356,16 +356,13 @@ Proof.
   rewrite E, map_app in Hnd. cbn [map] in Hnd. apply NoDup_remove_2 in Hnd. split; intros H; apply Hnd; apply in_or_app; [left|right]; exact H.
 Qed.
 
-Theorem any_history_of_whole_tree_saves c c0 : forall steps ts,
-  ts <> [] -> Forall (fun t => rcls t = CRoot) ts -> NoDup (map rname ts) -> hgood ts steps ->
-  fold_left (fun s st => snd (write_node c s (hroot st) [] (WA (hmode st) (htree st) None))) steps (H5 (forest_file c0 ts))
-  = H5 (forest_file c0 (fold_left happly steps ts)).
+Lemma hstep_ok c c0 ts s :
+  ts <> [] -> Forall (fun t => rcls t = CRoot) ts -> NoDup (map rname ts) -> hok ts s ->
+  write_node c (H5 (forest_file c0 ts)) (hroot s) [] (WA (hmode s) (htree s) None) = (Ok tt, H5 (forest_file c0 (happly ts s))) /\
+  happly ts s <> [] /\ Forall (fun t => rcls t = CRoot) (happly ts s) /\ NoDup (map rname (happly ts s)).
 Proof.
-  induction steps as [|s rest IH]; intros ts Hne Hr Hnd Hg; [reflexivity|].
-  destruct Hg as ((Htr & Hs) & Hrest). cbn [fold_left].
-  assert (write_node c (H5 (forest_file c0 ts)) (hroot s) [] (WA (hmode s) (htree s) None) = (Ok tt, H5 (forest_file c0 (happly ts s))) /\
-          happly ts s <> [] /\ Forall (fun t => rcls t = CRoot) (happly ts s) /\ NoDup (map rname (happly ts s))) as (Hw & Hne' & Hr' & Hnd').
-  { destruct s as [r md tr|r md tr|r md tr]; cbn [hroot hmode htree happly] in *.
+  intros Hne Hr Hnd (Htr & Hs).
+  destruct s as [r md tr|r md tr|r md tr]; cbn [hroot hmode htree happly] in *.
     - destruct Hs as (Hmd & Hc & Hok & Hnew). split; [apply save_new_tree; assumption|].
       split; [destruct ts; discriminate|]. split; [apply Forall_app; split; [exact Hr|repeat constructor; exact Hc]|].
       rewrite map_app. cbn [map]. apply NoDup_app_intro; [exact Hnd|repeat constructor; intros []|]. intros x Hx [<-|[]]. exact (Hnew Hx).
@@ -386,6 +383,50 @@ Proof.
       split; [destruct pre; discriminate|]. split.
       + rewrite E in Hr. apply Forall_app in Hr. destruct Hr as (Hr1 & Hr2). inversion Hr2 as [|? ? HcT Hr3]; subst.
         apply Forall_app. split; [exact Hr1|]. constructor; [|exact Hr3]. destruct T; exact HcT.
-      + rewrite E in Hnd. rewrite map_app in *. cbn [map] in *. assert (rname (with_kids T (aom r (rkids T))) = rname T) as -> by (destruct T; reflexivity). exact Hnd. }
+      + rewrite E in Hnd. rewrite map_app in *. cbn [map] in *. assert (rname (with_kids T (aom r (rkids T))) = rname T) as -> by (destruct T; reflexivity). exact Hnd.
+Qed.
+
+Theorem any_history_of_whole_tree_saves c c0 : forall steps ts,
+  ts <> [] -> Forall (fun t => rcls t = CRoot) ts -> NoDup (map rname ts) -> hgood ts steps ->
+  fold_left (fun s st => snd (write_node c s (hroot st) [] (WA (hmode st) (htree st) None))) steps (H5 (forest_file c0 ts))
+  = H5 (forest_file c0 (fold_left happly steps ts)).
+Proof.
+  induction steps as [|s rest IH]; intros ts Hne Hr Hnd Hg; [reflexivity|].
+  destruct Hg as (Hs & Hrest). cbn [fold_left].
+  destruct (hstep_ok c c0 ts s Hne Hr Hnd Hs) as (Hw & Hne' & Hr' & Hnd').
   rewrite Hw. cbn [snd]. apply IH; assumption.
+Qed.
+
+(* the same history issued as one sequence of calls (a list argument): every call succeeds *)
+Theorem sequence_of_whole_tree_saves c : forall steps ts,
+  ts <> [] -> Forall (fun t => rcls t = CRoot) ts -> NoDup (map rname ts) -> hgood ts steps ->
+  sequence c (H5 (forest_file c ts)) (map (fun st => (hroot st, @nil string, WA (hmode st) (htree st) None)) steps)
+  = (Ok tt, H5 (forest_file c (fold_left happly steps ts))).
+Proof.
+  induction steps as [|s rest IH]; intros ts Hne Hr Hnd Hg; [reflexivity|].
+  destruct Hg as (Hs & Hrest). cbn [map fold_left].
+  destruct (hstep_ok c c ts s Hne Hr Hnd Hs) as (Hw & Hne' & Hr' & Hnd').
+  rewrite (sequence_ok_cons c _ _ _ (H5 (forest_file c (happly ts s)))); [|exact Hw]. apply IH; assumption.
+Qed.
+
+(* a list of roots and unrooted items appended to a file that may already hold some of those roots: each listed tree is a new
+   tree, an append or an append-over according to what the file holds when its turn comes *)
+Theorem list_of_trees_into_an_existing_file c tops items md tr ts steps :
+  In md (appendmode ++ appendovermode) -> no_rooted_items items -> nodup_nat (list_unrooted_idx tops items) = true ->
+  map hroot steps = list_saved tops items ++ list_given tops items ->
+  Forall (fun st => hmode st = md /\ htree st = Some true) steps ->
+  ts <> [] -> Forall (fun t => rcls t = CRoot) ts -> NoDup (map rname ts) -> hgood ts steps ->
+  write_list c (H5 (forest_file c ts)) tops items (WA md tr None) = (Ok tt, H5 (forest_file c (fold_left happly steps ts))).
+Proof.
+  intros Hmd Hnr Hidx Hroots Hsteps Hne Hr Hnd Hg. unfold write_list. cbn [mode emdpath slot_exists].
+  assert (run_prelude prelude_order md None true = Ok md /\ mem md writemode = false /\ mem md overwritemode = false) as (-> & Hw & Ho).
+  { cbn [app] in Hmd. repeat (destruct Hmd as [<-|Hmd]; [repeat split; vm_compute; reflexivity|]). destruct Hmd. }
+  rewrite (no_rooted_flat items Hnr). cbn [fold_left map app existsb].
+  fold (list_given tops items). fold (list_unrooted tops items). fold (list_has_other items). fold (list_unrooted_idx tops items).
+  rewrite Hidx. cbn [negb orb].
+  unfold list_saved in Hroots.
+  destruct (others items (map rname (list_unrooted tops items)) 0 0) as [arrs dicts] eqn:Eo. cbv zeta in Hroots |- *.
+  rewrite Hw, Ho. rewrite app_nil_r. rewrite <- Hroots. rewrite map_map.
+  rewrite <- (sequence_of_whole_tree_saves c steps ts Hne Hr Hnd Hg). f_equal.
+  apply map_ext_in. intros st Hst. rewrite Forall_forall in Hsteps. destruct (Hsteps st Hst) as (-> & ->). reflexivity.
 Qed.
